@@ -367,6 +367,26 @@ theorem ofStrings_ok_iff (data : List String) (check : Bool) (s : St) (hne : dat
       rw [hrows hl]
       exact ⟨huni.2 hl, hc, hs⟩
 
+/-- so every string of an accepted list of `n` strings has length `n`, or `n + 2` (with its sign prefix), as the
+error message of line 125 says -/
+theorem ofStrings_lengths (data : List String) (check : Bool) (s : St) (hne : data ≠ [])
+    (h : ofStrings data check = .ok s) (str : String) (hs : str ∈ data) :
+    str.toList.length = data.length ∨ str.toList.length = data.length + 2 := by
+  obtain ⟨rows, hmap, hl, _, _⟩ := (ofStrings_ok_iff data check s hne).1 h
+  have hmem : strToOperator str ∈ rows.map some := hmap ▸ List.mem_map.2 ⟨str, hs, rfl⟩
+  obtain ⟨r, hr, e⟩ := List.mem_map.1 hmem
+  obtain ⟨letters, _, hrow, hcs⟩ := strToOperator_some str r e.symm
+  have hlen : letters.length = data.length := by
+    have := hl r hr
+    rw [hrow] at this
+    simpa using this
+  rcases hcs with e1 | ⟨_, e1⟩
+  · right
+    rw [e1, List.length_append, hlen]
+    cases r.neg <;> simp [signL] <;> omega
+  · left
+    rw [e1, hlen]
+
 /-- the refusal of line 125 is raised exactly when one of the strings does not parse -/
 theorem ofStrings_parse_error_iff (data : List String) (check : Bool) :
     ofStrings data check = .error .parse ↔ ∃ str, str ∈ data ∧ strToOperator str = none := by
